@@ -137,6 +137,24 @@ def run_case(case):
             continue
         obs["state"] = xs
         obs["chemostats"] = np.array(system.chemostats, dtype=float)
+        # a report of the state in some units (also the units it is stored in) is a value: it does not follow later edits of
+        # the system, and editing it does not edit the system - whatever the units
+        for tgt in (system.state.units.sys, st.UnitsSystem(**si.sys_dict(gen.rand_sys(gen.rng_for(sd, "C04rep", idx, k))))):
+            rep = system.state.convert(tgt)
+            rep_before = np.array(rep.value, dtype=float).copy()
+            st_before = np.array(system.state.value, dtype=float).copy()
+            old0 = system.get_state(0, 0)
+            system.set_state(0, 0, old0 * 3 + st.UnitValue(1, old0.units))
+            cnt("report_independence_checks")
+            if np.array(rep.value, dtype=float).tobytes() != rep_before.tobytes():
+                bad.append({"what": "a converted report of the state changed when the system was edited afterwards", "rendering": k,
+                            "report_units": si.sys_of(rep.units.sys), "state_units": si.sys_of(system.state.units.sys), **ctx})
+            system.set_state(0, 0, old0)
+            rep.value[...] = -4321.5
+            if np.array(system.state.value, dtype=float).tobytes() != st_before.tobytes():
+                bad.append({"what": "editing a converted report of the state changed the system", "rendering": k,
+                            "report_units": si.sys_of(rep.units.sys), "state_units": si.sys_of(system.state.units.sys), **ctx})
+                system.state.value[...] = st_before
         # --- python rate of change ---
         if with_python:
             try:
